@@ -13,6 +13,28 @@ Lemma depth_block_pos b : (1 <= depth_block b)%nat.
 Proof. destruct b as [|s r]; cbn [depth_block]; [lia|]. destruct s; cbn [depth_stmt]; lia. Qed.
 
 
+(** last status of an extended list *)
+Lemma last_status_cons a l : l <> [] -> last_status (a :: l) = last_status l.
+Proof. destruct l; [congruence|reflexivity]. Qed.
+
+Lemma last_status_app acc crs : crs <> [] -> last_status (acc ++ crs) = last_status crs.
+Proof.
+  intro H. induction acc as [|a acc IH]; [reflexivity|].
+  cbn [app]. rewrite last_status_cons; [exact IH|].
+  destruct acc; cbn; [exact H|discriminate].
+Qed.
+
+Lemma last_nz_app acc crs : last_is_nonzero acc = false ->
+  last_is_nonzero (acc ++ crs) = last_is_nonzero crs.
+Proof.
+  intro H. destruct crs as [|c crs]; [rewrite app_nil_r; exact H|].
+  unfold last_is_nonzero. rewrite last_status_app by discriminate. reflexivity.
+Qed.
+
+Lemma stop_app (e : bool) acc crs : e && last_is_nonzero acc = false ->
+  e && last_is_nonzero (acc ++ crs) = e && last_is_nonzero crs.
+Proof. destruct e; cbn; [apply last_nz_app | reflexivity]. Qed.
+
 (** unfolding equations of the mutual definitions (all by computation) *)
 Lemma wf_block_cons s r : wf_block (BCons s r) = wf_stmt s && wf_block r. Proof. reflexivity. Qed.
 Lemma wf_stmt_if i sp c b a : wf_stmt (SIf i sp c b a) = wf_block b && wf_arms a. Proof. reflexivity. Qed.
@@ -69,21 +91,22 @@ Variable W : Type.
 Variable run_line : W -> str -> W * list Z.
 Variable for_words : W -> str -> W * list str.
 Variable set_var : W -> str -> str -> W.
+Variable e : bool.
 Variable n : nat.
-Notation SB := (sem_block W run_line for_words set_var n).
-Notation SS := (sem_stmt W run_line for_words set_var n).
-Notation SA := (sem_arms W run_line for_words set_var n).
-Lemma sem_block_cons s r il w : SB (BCons s r) il w = then_ W (SS s il w) (SB r il). Proof. reflexivity. Qed.
+Notation SB := (sem_block W run_line for_words set_var e n).
+Notation SS := (sem_stmt W run_line for_words set_var e n).
+Notation SA := (sem_arms W run_line for_words set_var e n).
+Lemma sem_block_cons s r il w : SB (BCons s r) il w = then_ W e (SS s il w) (SB r il). Proof. reflexivity. Qed.
 Lemma sem_if i sp cond body rest il w :
   SS (SIf i sp cond body rest) il w =
   let '(w1, crs) := run_line w cond in if last_is_zero crs then SB body il w1 else SA rest il w1.
 Proof. reflexivity. Qed.
 Lemma sem_for i sp var words body il w :
   SS (SFor i sp var words body) il w =
-  let '(w1, vs) := for_words w words in sem_each W set_var (SB body true) var vs w1.
+  let '(w1, vs) := for_words w words in sem_each W set_var e (SB body true) var vs w1.
 Proof. reflexivity. Qed.
 Lemma sem_while i sp cond body il w :
-  SS (SWhile i sp cond body) il w = sem_iter W run_line cond (SB body true) n w.
+  SS (SWhile i sp cond body) il w = sem_iter W run_line e cond (SB body true) n w.
 Proof. reflexivity. Qed.
 Lemma sem_else i body j il w : SA (AElse i body j) il w = SB body il w. Proof. reflexivity. Qed.
 Lemma sem_elif i sp cond body rest il w :
@@ -91,26 +114,26 @@ Lemma sem_elif i sp cond body rest il w :
   let '(w1, crs) := run_line w cond in if last_is_zero crs then SB body il w1 else SA rest il w1.
 Proof. reflexivity. Qed.
 Lemma sem_each_flags (body : W -> outcome W) var vs : forall w w2 crs2 c b,
-  sem_each W set_var body var vs w = Done w2 crs2 c b -> c = false /\ b = false.
+  sem_each W set_var e body var vs w = Done w2 crs2 c b -> c = false /\ b = false.
 Proof.
   induction vs as [|v vs IH]; intros w w2 crs2 c b E; cbn [sem_each] in E.
   - injection E as _ _ <- <-. split; reflexivity.
   - destruct (body (set_var w var v)) as [w3 crs3 c3 b3| |]; try discriminate.
-    destruct b3.
+    destruct (b3 || stops e crs3).
     + injection E as _ _ <- <-. split; reflexivity.
-    + destruct (sem_each W set_var body var vs w3) as [w4 crs4 c4 b4| |] eqn:E4; try discriminate.
+    + destruct (sem_each W set_var e body var vs w3) as [w4 crs4 c4 b4| |] eqn:E4; try discriminate.
       injection E as _ _ <- <-. eapply IH; eassumption.
 Qed.
 Lemma sem_iter_flags cond (body : W -> outcome W) k : forall w w2 crs2 c b,
-  sem_iter W run_line cond body k w = Done w2 crs2 c b -> c = false /\ b = false.
+  sem_iter W run_line e cond body k w = Done w2 crs2 c b -> c = false /\ b = false.
 Proof.
   induction k as [|k IH]; intros w w2 crs2 c b E; cbn [sem_iter] in E; [discriminate|].
   destruct (run_line w cond) as [w1 crs]. cbn beta iota match in E.
   destruct (last_is_zero crs).
   - destruct (body w1) as [w3 crs3 c3 b3| |]; cbn beta iota match in E; try discriminate.
-    destruct b3.
+    destruct (b3 || stops e crs3).
     + injection E as _ _ <- <-. split; reflexivity.
-    + destruct (sem_iter W run_line cond body k w3) as [w4 crs4 c4 b4| |] eqn:E4; try discriminate.
+    + destruct (sem_iter W run_line e cond body k w3) as [w4 crs4 c4 b4| |] eqn:E4; try discriminate.
       injection E as _ _ <- <-. eapply IH; eassumption.
   - injection E as _ _ <- <-. split; reflexivity.
 Qed.
@@ -122,8 +145,9 @@ Variable run_line : W -> str -> W * list Z.
 Variable for_words : W -> str -> W * list str.
 Variable set_var : W -> str -> str -> W.
 Variable eoe : W -> bool.
+Variable e : bool.
 Variable n : nat.
-Hypothesis no_set_e : forall w, eoe w = false.
+Hypothesis flag : forall w, eoe w = e.
 
 Notation RE := (run_exp W run_line for_words set_var eoe n).
 Notation RIF := (run_exp_if W run_line for_words set_var eoe n).
@@ -131,15 +155,15 @@ Notation RFOR := (run_exp_for W run_line for_words set_var eoe n).
 Notation RWH := (run_exp_while W run_line for_words set_var eoe n).
 Notation RBR := (run_exp_test_br W run_line for_words set_var eoe n).
 Notation XL d := (exp_loop W run_line eoe (RIF d) (RFOR d) (RWH d)).
-Notation SB := (sem_block W run_line for_words set_var n).
-Notation SS := (sem_stmt W run_line for_words set_var n).
-Notation SA := (sem_arms W run_line for_words set_var n).
+Notation SB := (sem_block W run_line for_words set_var e n).
+Notation SS := (sem_stmt W run_line for_words set_var e n).
+Notation SA := (sem_arms W run_line for_words set_var e n).
 
 Lemma run_exp_S d t il w : RE (S d) t il w = XL d il (t_kids t) w []. Proof. reflexivity. Qed.
 Lemma run_exp_if_S d t il w : RIF (S d) t il w = if_loop W (RBR d) il (t_kids t) w [] false false. Proof. reflexivity. Qed.
 Lemma run_exp_test_br_S d t il w : RBR (S d) t il w = br_loop W run_line (RE d) il (t_kids t) w false. Proof. reflexivity. Qed.
-Lemma run_exp_for_S d t w : RFOR (S d) t w = for_loop W for_words set_var (RE d) (t_kids t) w [] [] []. Proof. reflexivity. Qed.
-Lemma run_exp_while_S d t w : RWH (S d) t w = while_iter W (RBR d) t n w []. Proof. reflexivity. Qed.
+Lemma run_exp_for_S d t w : RFOR (S d) t w = for_loop W for_words set_var eoe (RE d) (t_kids t) w [] [] []. Proof. reflexivity. Qed.
+Lemma run_exp_while_S d t w : RWH (S d) t w = while_iter W eoe (RBR d) t n w []. Proof. reflexivity. Qed.
 
 Definition prepend (acc : list Z) (o : outcome W) : outcome W :=
   match o with
@@ -153,47 +177,64 @@ Proof. destruct o; reflexivity. Qed.
 Lemma prepend_app a b o : prepend a (prepend b o) = prepend (a ++ b) o.
 Proof. destruct o; cbn; [rewrite app_assoc|..]; reflexivity. Qed.
 
-(** the accumulator of run_exp's loop is only ever extended *)
+(** the accumulator of run_exp's loop is only ever extended (as long as it does not already ask to exit) *)
 Lemma exp_loop_acc rif rfor rwh in_loop pairs : forall w acc,
+  e && last_is_nonzero acc = false ->
   exp_loop W run_line eoe rif rfor rwh in_loop pairs w acc =
   prepend acc (exp_loop W run_line eoe rif rfor rwh in_loop pairs w []).
 Proof.
-  induction pairs as [|p rest IH]; intros w acc; cbn [exp_loop].
+  induction pairs as [|p rest IH]; intros w acc Hacc; cbn [exp_loop].
   - cbn. rewrite app_nil_r. reflexivity.
-  - destruct (is_empty (t_txt p)); [apply IH|].
+  - destruct (is_empty (t_txt p)); [apply IH, Hacc|].
     destruct (t_rule p =? L_CMD).
     { destruct (str_eqb (t_txt p) kw_continue).
-      { destruct in_loop; [cbn; rewrite app_nil_r; reflexivity | apply IH]. }
+      { destruct in_loop; [cbn; rewrite app_nil_r; reflexivity | apply IH, Hacc]. }
       destruct (str_eqb (t_txt p) kw_break).
-      { destruct in_loop; [cbn; rewrite app_nil_r; reflexivity | apply IH]. }
+      { destruct in_loop; [cbn; rewrite app_nil_r; reflexivity | apply IH, Hacc]. }
       destruct (run_line w (t_txt p)) as [w1 crs].
-      rewrite no_set_e, !andb_false_r.
-      rewrite (IH w1 (acc ++ crs)), (IH w1 ([] ++ crs)). cbn [app].
-      rewrite prepend_app. reflexivity. }
+      rewrite flag. rewrite !(andb_comm _ e). rewrite (stop_app e acc crs Hacc). cbn [app].
+      destruct (e && last_is_nonzero crs) eqn:St; [reflexivity|].
+      rewrite (IH w1 (acc ++ crs)) by (rewrite stop_app; assumption).
+      rewrite (IH w1 crs St). rewrite prepend_app. reflexivity. }
     destruct (t_rule p =? L_EXP_IF).
     { destruct (rif p in_loop w) as [w1 crs c b| |]; [|reflexivity|reflexivity].
-      cbn [app]. destruct c; [reflexivity|]. destruct b; [reflexivity|].
-      rewrite (IH w1 (acc ++ crs)), (IH w1 crs), prepend_app. reflexivity. }
+      unfold exit_requested. rewrite flag, (stop_app e acc crs Hacc). cbn [app].
+      destruct (e && last_is_nonzero crs) eqn:St; [reflexivity|].
+      destruct c; [reflexivity|]. destruct b; [reflexivity|].
+      rewrite (IH w1 (acc ++ crs)) by (rewrite stop_app; assumption).
+      rewrite (IH w1 crs St), prepend_app. reflexivity. }
     destruct (t_rule p =? L_EXP_FOR).
     { destruct (rfor p w) as [w1 crs c b| |]; [|reflexivity|reflexivity].
-      cbn [app]. rewrite (IH w1 (acc ++ crs)), (IH w1 crs), prepend_app. reflexivity. }
+      unfold exit_requested. rewrite flag, (stop_app e acc crs Hacc). cbn [app].
+      destruct (e && last_is_nonzero crs) eqn:St; [reflexivity|].
+      rewrite (IH w1 (acc ++ crs)) by (rewrite stop_app; assumption).
+      rewrite (IH w1 crs St), prepend_app. reflexivity. }
     destruct (t_rule p =? L_EXP_WHILE).
     { destruct (rwh p w) as [w1 crs c b| |]; [|reflexivity|reflexivity].
-      cbn [app]. rewrite (IH w1 (acc ++ crs)), (IH w1 crs), prepend_app. reflexivity. }
-    apply IH.
+      unfold exit_requested. rewrite flag, (stop_app e acc crs Hacc). cbn [app].
+      destruct (e && last_is_nonzero crs) eqn:St; [reflexivity|].
+      rewrite (IH w1 (acc ++ crs)) by (rewrite stop_app; assumption).
+      rewrite (IH w1 crs St), prepend_app. reflexivity. }
+    apply IH, Hacc.
 Qed.
+
+Lemma nil_ok : e && last_is_nonzero [] = false.
+Proof. apply andb_false_r. Qed.
 
 (** for: the value loop is sem_each, given the body *)
 Lemma for_values_sem rec body_t (body : W -> outcome W) var :
   (forall w, rec body_t true w = body w) ->
-  forall vs w acc,
-  for_values W set_var rec body_t var vs w acc = prepend acc (sem_each W set_var body var vs w).
+  forall vs w acc, e && last_is_nonzero acc = false ->
+  for_values W set_var eoe rec body_t var vs w acc = prepend acc (sem_each W set_var e body var vs w).
 Proof.
-  intros Hb. induction vs as [|v vs IH]; intros w acc; cbn [for_values sem_each].
+  intros Hb. induction vs as [|v vs IH]; intros w acc Hacc; cbn [for_values sem_each].
   - cbn. rewrite app_nil_r. reflexivity.
   - rewrite Hb. destruct (body (set_var w var v)) as [w1 crs c b| |]; [|reflexivity|reflexivity].
-    destruct b; [reflexivity|].
-    rewrite IH. destruct (sem_each W set_var body var vs w1); cbn; [rewrite app_assoc|..]; reflexivity.
+    unfold exit_requested, stops. rewrite flag, (stop_app e acc crs Hacc).
+    destruct (b || e && last_is_nonzero crs) eqn:St; [reflexivity|].
+    apply orb_false_iff in St as [_ St].
+    rewrite IH by (rewrite stop_app; assumption).
+    destruct (sem_each W set_var e body var vs w1); cbn; [rewrite app_assoc|..]; reflexivity.
 Qed.
 
 (** while: the iteration is sem_iter, given what one test-and-body round does *)
@@ -207,15 +248,18 @@ Lemma while_iter_sem rbr pw cond (body : W -> outcome W) :
        | OutOfFuel => OutOfFuelBr
        end
      else DoneBr w1 [] false false false) ->
-  forall k w acc,
-  while_iter W rbr pw k w acc = prepend acc (sem_iter W run_line cond body k w).
+  forall k w acc, e && last_is_nonzero acc = false ->
+  while_iter W eoe rbr pw k w acc = prepend acc (sem_iter W run_line e cond body k w).
 Proof.
-  intros Hb. induction k as [|k IH]; intros w acc; cbn [while_iter sem_iter]; [reflexivity|].
+  intros Hb. induction k as [|k IH]; intros w acc Hacc; cbn [while_iter sem_iter]; [reflexivity|].
   rewrite Hb. destruct (run_line w cond) as [w1 crs].
   destruct (last_is_zero crs).
   - destruct (body w1) as [w2 crs2 c b| |]; [|reflexivity|reflexivity].
-    cbn [negb orb]. destruct b; [reflexivity|].
-    rewrite IH. destruct (sem_iter W run_line cond body k w2); cbn; [rewrite app_assoc|..]; reflexivity.
+    cbn [negb orb]. unfold exit_requested, stops. rewrite flag, (stop_app e acc crs2 Hacc).
+    destruct (b || e && last_is_nonzero crs2) eqn:St; [reflexivity|].
+    apply orb_false_iff in St as [_ St].
+    rewrite IH by (rewrite stop_app; assumption).
+    destruct (sem_iter W run_line e cond body k w2); cbn; [rewrite app_assoc|..]; reflexivity.
   - cbn. rewrite app_nil_r. reflexivity.
 Qed.
 
@@ -245,7 +289,7 @@ Definition P_block (b : block) : Prop :=
 Definition P_stmt (s : stmt) : Prop :=
   wf_stmt s = true -> forall d in_loop w rest, (depth_stmt s <= S d)%nat ->
   XL d in_loop (tree_of_stmt s :: rest) w [] =
-  then_ W (SS s in_loop w) (fun w1 => XL d in_loop rest w1 []).
+  then_ W e (SS s in_loop w) (fun w1 => XL d in_loop rest w1 []).
 
 Definition P_arms (a : arms) : Prop :=
   wf_arms a = true -> forall d in_loop w acc, (depth_arms a <= d)%nat ->
@@ -269,6 +313,7 @@ Proof.
     rewrite depth_block_cons in Hd. rewrite kids_cons, sem_block_cons.
     rewrite (IHs Hs d in_loop w (kids_of_block r)) by lia.
     unfold then_. destruct (SS s in_loop w) as [w1 crs c b| |]; [|reflexivity|reflexivity].
+    destruct (stops e crs); [reflexivity|].
     destruct c; [reflexivity|]. destruct b; [reflexivity|].
     rewrite (IHr Hr d in_loop w1) by lia. reflexivity.
   - (* SCmd *) intros ind line Hwf d in_loop w rest _.
@@ -277,22 +322,24 @@ Proof.
     apply negb_true_iff in H1, H2, H3.
     cbn [tree_of_stmt core_stmt exp_loop t_txt t_rule sem_stmt].
     rewrite H1, H2, H3. rewrite N.eqb_refl.
-    destruct (run_line w line) as [w1 crs]. rewrite no_set_e, andb_false_r.
-    cbn [app then_]. rewrite exp_loop_acc. destruct (XL d in_loop rest w1 []); reflexivity.
+    destruct (run_line w line) as [w1 crs]. rewrite flag, andb_comm.
+    cbn [app then_]. unfold stops. destruct (e && last_is_nonzero crs) eqn:St; [reflexivity|].
+    rewrite exp_loop_acc by exact St. destruct (XL d in_loop rest w1 []); reflexivity.
   - (* SBlank *) intros ws _ d in_loop w rest _.
     cbn [tree_of_stmt core_stmt exp_loop t_txt is_empty sem_stmt then_].
+    unfold stops. rewrite nil_ok.
     destruct (XL d in_loop rest w []); reflexivity.
   - (* SBreak *) intros ind _ d in_loop w rest _.
     cbn [tree_of_stmt core_stmt exp_loop t_txt t_rule sem_stmt].
     change (is_empty kw_break) with false. change (str_eqb kw_break kw_continue) with false.
     change (str_eqb kw_break kw_break) with true. rewrite N.eqb_refl. cbn match.
-    destruct in_loop; cbn [then_]; [reflexivity|].
+    destruct in_loop; cbn [then_]; unfold stops; rewrite nil_ok; [reflexivity|].
     destruct (XL d false rest w []); reflexivity.
   - (* SCont *) intros ind _ d in_loop w rest _.
     cbn [tree_of_stmt core_stmt exp_loop t_txt t_rule sem_stmt].
     change (is_empty kw_continue) with false. change (str_eqb kw_continue kw_continue) with true.
     rewrite N.eqb_refl. cbn match.
-    destruct in_loop; cbn [then_]; [reflexivity|].
+    destruct in_loop; cbn [then_]; unfold stops; rewrite nil_ok; [reflexivity|].
     destruct (XL d false rest w []); reflexivity.
   - (* SIf *) intros ind sp cond body IHb rest0 IHa Hwf d in_loop w rest Hd.
     rewrite wf_stmt_if in Hwf. apply andb_prop in Hwf as [Hb Ha].
@@ -310,12 +357,16 @@ Proof.
     + change (TNode L_EXP_BODY (trim (render_block body)) (kids_of_block body)) with (body_node (kids_of_block body) body).
       rewrite (run_exp_body (S d) body in_loop w1 IHb Hb) by lia.
       unfold then_. destruct (SB body in_loop w1) as [w2 crs2 c b| |]; [|reflexivity|reflexivity].
-      cbn [app]. destruct c; [reflexivity|]. destruct b; [reflexivity|].
-      rewrite exp_loop_acc. destruct (XL (S (S (S d))) in_loop rest w2 []); reflexivity.
+      cbn [app]. unfold exit_requested, stops. rewrite flag.
+      destruct (e && last_is_nonzero crs2) eqn:St; [reflexivity|].
+      destruct c; [reflexivity|]. destruct b; [reflexivity|].
+      rewrite exp_loop_acc by exact St. destruct (XL (S (S (S d))) in_loop rest w2 []); reflexivity.
     + cbn [app]. rewrite (IHa Ha (S d) in_loop w1 []) by lia. rewrite prepend_nil.
       unfold then_. destruct (SA rest0 in_loop w1) as [w2 crs2 c b| |]; [|reflexivity|reflexivity].
-      cbn [app]. destruct c; [reflexivity|]. destruct b; [reflexivity|].
-      rewrite exp_loop_acc. destruct (XL (S (S (S d))) in_loop rest w2 []); reflexivity.
+      cbn [app]. unfold exit_requested, stops. rewrite flag.
+      destruct (e && last_is_nonzero crs2) eqn:St; [reflexivity|].
+      destruct c; [reflexivity|]. destruct b; [reflexivity|].
+      rewrite exp_loop_acc by exact St. destruct (XL (S (S (S d))) in_loop rest w2 []); reflexivity.
   - (* SFor *) intros ind sp var words body IHb Hwf d in_loop w rest Hd.
     rewrite wf_stmt_for in Hwf. rewrite depth_stmt_for in Hd.
     pose proof (depth_block_pos body) as Hpos.
@@ -336,11 +387,14 @@ Proof.
     change (L_EXP_BODY =? L_FOR_HEAD) with false. change (L_EXP_BODY =? L_EXP_BODY) with true. cbn match.
     rewrite (for_values_sem (RE (S d)) _ (SB body true) var).
     2:{ intro w'. apply (run_exp_body (S d) body true w' IHb Hwf). lia. }
+    2:{ apply nil_ok. }
     rewrite prepend_nil.
     unfold then_.
-    destruct (sem_each W set_var (SB body true) var vs w1) as [w2 crs2 c b| |] eqn:E; [|reflexivity|reflexivity].
-    destruct (sem_each_flags W set_var _ _ _ _ _ _ _ _ E) as [-> ->].
-    rewrite exp_loop_acc. destruct (XL (S (S d)) in_loop rest w2 []); reflexivity.
+    destruct (sem_each W set_var e (SB body true) var vs w1) as [w2 crs2 c b| |] eqn:E; [|reflexivity|reflexivity].
+    destruct (sem_each_flags W set_var e _ _ _ _ _ _ _ _ E) as [-> ->].
+    unfold exit_requested, stops. rewrite flag. cbn [app].
+    destruct (e && last_is_nonzero crs2) eqn:St; [reflexivity|].
+    rewrite exp_loop_acc by exact St. destruct (XL (S (S d)) in_loop rest w2 []); reflexivity.
   - (* SWhile *) intros ind sp cond body IHb Hwf d in_loop w rest Hd.
     rewrite wf_stmt_while in Hwf. rewrite depth_stmt_while in Hd.
     pose proof (depth_block_pos body) as Hpos.
@@ -356,10 +410,13 @@ Proof.
         destruct (run_line w' cond) as [w1 crs]. destruct (last_is_zero crs); [|reflexivity].
         change (TNode L_EXP_BODY (trim (render_block body)) (kids_of_block body)) with (body_node (kids_of_block body) body).
         rewrite (run_exp_body (S d) body true w1 IHb Hwf) by lia. reflexivity. }
+    2:{ apply nil_ok. }
     rewrite prepend_nil. unfold then_.
-    destruct (sem_iter W run_line cond (SB body true) n w) as [w2 crs2 c b| |] eqn:E; [|reflexivity|reflexivity].
-    destruct (sem_iter_flags W run_line _ _ _ _ _ _ _ _ E) as [-> ->].
-    rewrite exp_loop_acc. destruct (XL (S (S (S d))) in_loop rest w2 []); reflexivity.
+    destruct (sem_iter W run_line e cond (SB body true) n w) as [w2 crs2 c b| |] eqn:E; [|reflexivity|reflexivity].
+    destruct (sem_iter_flags W run_line e _ _ _ _ _ _ _ _ E) as [-> ->].
+    unfold exit_requested, stops. rewrite flag. cbn [app].
+    destruct (e && last_is_nonzero crs2) eqn:St; [reflexivity|].
+    rewrite exp_loop_acc by exact St. destruct (XL (S (S (S d))) in_loop rest w2 []); reflexivity.
   - (* ANone *) intros ind _ d in_loop w acc _. cbn. rewrite app_nil_r. reflexivity.
   - (* AElse *) intros ind body IHb ind_fi Hwf d in_loop w acc Hd.
     rewrite wf_arms_else in Hwf. rewrite depth_arms_else in Hd.
